@@ -74,7 +74,8 @@ def run_driver(binpath, args, seed=0, env_file=None, extra_env=None, timeout=360
 
 class Obligation:
     def __init__(self, name, kind, lines, asserts, expect, timeout, meta=None,
-                 replay=None, get_model=True):
+                 replay=None, get_model=True, batch=False):
+        self.batch = batch
         self.name, self.kind = name, kind
         self.lines, self.asserts = lines, asserts
         self.expect = expect          # "unsat" or "sat"
@@ -112,9 +113,9 @@ class Run:
                 self.functions.append(f)
 
     def obligation(self, name, lines, asserts, expect="unsat", kind="identity",
-                   timeout=None, meta=None, replay=None, get_model=True):
+                   timeout=None, meta=None, replay=None, get_model=True, batch=False):
         o = Obligation(name, kind, lines, asserts, expect,
-                       timeout or self.solver_timeout, meta, replay, get_model)
+                       timeout or self.solver_timeout, meta, replay, get_model, batch)
         self.obls.append(o)
         return o
 
@@ -141,6 +142,17 @@ class Run:
                 self._hint_seen.add(key)
                 self.identity(f"hint/factor/{e.id}_{prod.id}", e, prod)
         return self.obligation(name, q.lines(), q.asserts, expect, kind, **kw)
+
+    def bound_lemmas(self, prefix, lemmas):
+        """queue the solver-checked lemmas of xengine.propagate_bounds"""
+        for nm, lq in lemmas:
+            for (e, prod) in lq.hints:
+                key = (e.id, prod.id)
+                if key not in self._hint_seen:
+                    self._hint_seen.add(key)
+                    self.identity(f"hint/factor/{e.id}_{prod.id}", e, prod)
+            self.obligation(f"{prefix}/bound/{nm}", lq.lines(), lq.asserts, "unsat", "lemma/bound",
+                            get_model=False, batch=True)
 
     def validate(self, sym_bundle, real_bundle, ctx=None, nodes=None):
         """Translator validation: evaluate the symbolic bundle at the real
@@ -196,11 +208,33 @@ class Run:
                 o.cross[cs] = c.status
         return o
 
+    def _solve_chunk(self, chunk):
+        rs = smt.check_batch([(o.lines, o.asserts) for o in chunk], "z3", chunk[0].timeout)
+        for o, r in zip(chunk, rs):
+            r.script = ""
+            o.result = r
+        bad = [o for o in chunk if o.result.status != o.expect]
+        for o in bad:   # re-run individually (models, precise status)
+            o.result = None
+            self._solve(o)
+        if self.cross_solvers:
+            for cs in self.cross_solvers:
+                cr = smt.check_batch([(o.lines, o.asserts) for o in chunk], cs, chunk[0].timeout)
+                for o, r in zip(chunk, cr):
+                    o.cross[cs] = r.status
+        return chunk
+
     def solve_all(self, workers=None):
         workers = workers or min(16, os.cpu_count() or 4)
         pending = [o for o in self.obls if o.result is None]
+        singles = [o for o in pending if not o.batch]
+        batch = [o for o in pending if o.batch]
+        chunks = [batch[i:i + 48] for i in range(0, len(batch), 48)]
         with cf.ThreadPoolExecutor(max_workers=workers) as ex:
-            list(ex.map(self._solve, pending))
+            f1 = [ex.submit(self._solve, o) for o in singles]
+            f2 = [ex.submit(self._solve_chunk, c) for c in chunks]
+            for f in f1 + f2:
+                f.result()
         for o in pending:
             self._judge(o)
 
@@ -284,6 +318,8 @@ class Run:
             "solver_time_s": round(solver_time, 2),
             "translator_validation": self.validation,
             "inconclusive": self.inconclusive[:50],
+            "slowest_obligations": [[o.name, round(o.result.secs, 2)] for o in
+                                    sorted([o for o in self.obls if o.result], key=lambda o: -o.result.secs)[:5]],
             "evaluations": max(len(self.obls), 1),
             "distinct_nontrivial": max(len({o.name for o in self.obls}), 0),
             "rule": "one evaluation = one SMT obligation (distinct by name; non-trivial = contains at least one free variable)",
